@@ -12,10 +12,12 @@ import dsched
 
 KINDS = ["ok", "exc", "baseexc", "badres", "badarg"]
 KINDS_TIMEOUT = KINDS + ["slow_to", "slow_to", "ok"]
-KINDS_LOCKQ = ["ok", "islocked", "ok", "exc", "islocked", "getname", "getsignals"]   # lock-control requests travel the same queue as method calls
+KINDS_LOCKQ = ["ok", "islocked", "ok", "exc", "islocked", "getname", "getsignals"]
+KINDS_SELF = ["ok", "selfcall", "ok", "exc", "selfcall"]     # a method calling its own object through a proxy   # lock-control requests travel the same queue as method calls
 # values the SENDER can pickle but the RECEIVER cannot unpickle (a class/module missing on the other side): the receiving
 # connection gives up (orderly loss of the peer connection caused by the message itself)
 KINDS_BADLOAD = ["ok", "badload_arg", "ok", "badload_res", "exc", "ok"]
+SELF_PROXY = {}
 CUR_TAG = {}                                                # thread ident -> tag of the call being issued        # slow_to: slow method called with a short rpc_timeout
 FAULTS = ["none", "remove", "stop_server", "stop_client", "disconnect", "remove_then_stop"]
 
@@ -48,9 +50,10 @@ def make_object_class():
     from qmi.core.rpc import QMI_RpcObject, rpc_method
 
     class Target(QMI_RpcObject):
-        def __init__(self, context, name, execlog):
+        def __init__(self, context, name, execlog, calls=None):
             super().__init__(context, name)
             self._execlog = execlog
+            self._calls = calls if calls is not None else {}
             self._depth = 0
 
         def _enter(self, tag):
@@ -75,6 +78,39 @@ def make_object_class():
         @rpc_method
         def ok(self, tag, payload=None):
             self._enter(tag)
+            return ("val", tag)
+
+        @rpc_method
+        def selfcall(self, tag, payload=None):
+            """a method that calls its OWN object through a proxy (blocking, with a timeout): the nested request must
+            wait in the queue like any other - it can only be served after this method has returned"""
+            from qmi.core.exceptions import QMI_RpcTimeoutException, QMI_MessageDeliveryException
+            # this body is "in progress" from here to its return: the nested request must not execute inside it
+            self._depth += 1
+            self._execlog.append(("enter", tag, self._depth))
+            try:
+                return self._selfcall_body(tag)
+            finally:
+                self._execlog.append(("exit", tag, self._depth))
+                self._depth -= 1
+
+        def _selfcall_body(self, tag):
+            from qmi.core.exceptions import QMI_RpcTimeoutException, QMI_MessageDeliveryException
+            ntag = "self:%s" % tag
+            rec = {"caller": "W:" + tag, "kind": "selfnested", "remote": False, "result": None, "done": False, "future": None}
+            self._calls[ntag] = rec
+            CUR_TAG[real_threading.get_ident()] = ntag
+            try:
+                p = SELF_PROXY["p"]      # made during set-up: making one here would add a request to $context to the trace
+                v = p.ok(ntag, None, rpc_timeout=1.0)
+                rec["result"] = ("value", repr(v))
+            except QMI_RpcTimeoutException:
+                rec["result"] = ("timeout", "")
+            except QMI_MessageDeliveryException as e:
+                rec["result"] = ("delivery_error", str(e)[:60])
+            except BaseException as e:  # noqa
+                rec["result"] = ("exception", type(e).__name__)
+            rec["done"] = True
             return ("val", tag)
 
         @rpc_method
@@ -424,7 +460,8 @@ def scenario(s, spec):
     srv.start()
     srv._message_router._thread._ctxname = "srv"
     srv._message_router._thread.event_loop._ctxname = "srv"
-    lp = srv.make_rpc_object("obj", Target, obs["execlog"])
+    lp = srv.make_rpc_object("obj", Target, obs["execlog"], obs["calls"])
+    SELF_PROXY["p"] = lp
     cl = None
     if spec["remote"] or spec["fault"] in ("stop_client", "disconnect"):
         cl = QMI_Context("cl", cfg)
